@@ -217,11 +217,11 @@ func (t *TupleType) Get(key string) (value px.Value, ok bool) {
 func (t *TupleType) IsAssignable(o px.Type, g px.Guard) bool {
 	switch o := o.(type) {
 	case *ArrayType:
-		if !GuardedIsInstance(t.givenOrActualSize, integerValue(o.size.Min()), g) {
+		if !t.givenOrActualSize.IsAssignable(o.size, g) {
 			return false
 		}
 		top := len(t.types)
-		if top == 0 {
+		if top == 0 || o.size.Max() == 0 {
 			return true
 		}
 		elemType := o.typ
@@ -233,23 +233,34 @@ func (t *TupleType) IsAssignable(o px.Type, g px.Guard) bool {
 		return true
 
 	case *TupleType:
-		if !(t.size == nil || GuardedIsInstance(t.size, integerValue(o.givenOrActualSize.Min()), g)) {
+		if !t.givenOrActualSize.IsAssignable(o.givenOrActualSize, g) {
 			return false
 		}
 
 		if len(t.types) > 0 {
 			top := len(o.types)
 			if top == 0 {
-				return t.givenOrActualSize.min == 0
+				// The other tuple is untyped. Its instances are arrays of anything within its size
+				return o.givenOrActualSize.max == 0
 			}
 
+			// Compare every position that an instance of the other tuple can have. Both tuples repeat
+			// their last type for positions beyond their declared types.
 			last := len(t.types) - 1
-			for idx := 0; idx < top; idx++ {
+			oLast := top - 1
+			if top < len(t.types) {
+				top = len(t.types)
+			}
+			for idx := 0; idx < top && int64(idx) < o.givenOrActualSize.max; idx++ {
 				myIdx := idx
 				if myIdx > last {
 					myIdx = last
 				}
-				if !GuardedIsAssignable(t.types[myIdx], o.types[idx], g) {
+				oIdx := idx
+				if oIdx > oLast {
+					oIdx = oLast
+				}
+				if !GuardedIsAssignable(t.types[myIdx], o.types[oIdx], g) {
 					return false
 				}
 			}
